@@ -16,7 +16,7 @@ CONSTANTS
   UseCheckpoint = FALSE
   Batch = 1
   IgnoreTaints = FALSE
-INVARIANTS Inv_CommittedSurvives Inv_NoDivergence Inv_Nacked Inv_Struct
+INVARIANTS Inv_CommittedSurvives Inv_NoDivergence Inv_HWBacked Inv_Nacked Inv_Struct
 PROPERTIES AcksOK HWMono
 VIEW MCView
 CHECK_DEADLOCK FALSE
